@@ -363,7 +363,18 @@ def r32(facts, res):
                 return None
             v = find_variant(p.end[1], 'AcceptReduceConflict') or find_variant(p.end[1], 'StateTableErrorKind')
             return v
+        all_stores = stores
         for cmpv in (sorted(poss) if (kind == 'Reduce' and not is_acc and poss) else [None]):
+            # writing Reduce(the production that is in the cell already) leaves the cell as it is
+            stores = all_stores
+            if kind == 'Reduce' and r_term is not None and cmpv in (0, 1):
+                def identity(e):
+                    v = find_variant(e[3], 'Action')
+                    if v is None or v[3] != 'Reduce' or not v[4]:
+                        return False
+                    x = strip_ref(v[4][0])
+                    return x == strip_ref(r_term) or (cmpv == 0 and x == strip_ref(p_term))
+                stores = [e for e in all_stores if not identity(e)]
             key = None
             ok = False
             msg = ''
